@@ -33,11 +33,15 @@ THEOREMS = [
     "IrVerif.Scope.C17_idempotent",
     "IrVerif.Scope.C17_consistent_is_WF",
     "IrVerif.Scope.C17_deserialize_WF",
+    "IrVerif.Scope.C17_total_model",
+    "IrVerif.Scope.C17_idempotent_model_partial",
 ]
 ASSUMPTIONS = [
     "byte-level parsing is protobuf's; Python RecursionError counts as 'raises'",
     "value-info content (type, shape, doc_string) and tensor payloads are opaque tokens in the model; "
-    "metadata_props merge, quantization annotations, device configurations, functions are oracle-only",
+    "metadata_props merge, quantization annotations, device configurations are oracle-only; functions are part "
+    "of the model for IR version >= 10 (FunctionProto.value_info format; attributes, opset imports, doc are "
+    "abstracted), the IR < 10 experimental value-info format is oracle-only",
     "C17_idempotent is proved for every proto of the model (dangling / duplicate / shadowed names, "
     "placeholders, unproduced outputs included); the model's serialize . deserialize is also run twice on "
     "every generated proto (counter model_not_fixpoint must stay 0) and the oracle checks the real code",
@@ -359,13 +363,19 @@ def run_case(part, m: onnx.ModelProto, stream: str, want_model: bool, lean_reqs:
     case = {"stream": stream, "proto_hex": binascii.hexlify(_det(m)).decode()}
     flags: dict = {}
     gp = None
+    mp = None
     if want_model:
         try:
             gp = sc.graph_proto_to_model(m.graph, flags)
+            if len(m.functions) and m.ir_version >= 10:
+                # the function-aware model (FunctionProto.value_info format of IR version >= 10)
+                mp = sc.model_proto_to_model(m, flags)
         except sc.OutsideModel as e:
             part.count(f"outside_model={e.args[0][:30]}")
+            gp = None
         except RecursionError:
             part.count("outside_model=recursion")
+            gp = None
     # ---- real code under audit + time limit
     model = None
     err = None
@@ -412,6 +422,13 @@ def run_case(part, m: onnx.ModelProto, stream: str, want_model: bool, lean_reqs:
                 if has_duplicate_attribute_names(m):
                     sig = "inconsistent:phantom-use:duplicate-attribute-name"  # D102
             part.fail(sig, "; ".join(bad[:4]), case)
+        # name resolution, recomputed from the proto alone (innermost scope first), against the IR
+        try:
+            mism = sc.resolution_mismatches(m.graph, model.graph)
+        except RecursionError:
+            mism = []
+        if mism:
+            part.fail("resolution:input-not-bound-to-innermost-definition", "; ".join(mism[:3]), case)
         # fix-point
         try:
             audit3 = sc.FileAudit()
@@ -458,7 +475,12 @@ def run_case(part, m: onnx.ModelProto, stream: str, want_model: bool, lean_reqs:
             part.fail("timeout:to_proto", "serialization / re-deserialization did not finish", case)
             return
     # ---- model
-    if gp is not None:
+    if gp is not None and mp is not None:
+        part.count("model_with_functions")
+        flags["with_functions"] = 1
+        lean_reqs.append({"m": "scope.mdeser", **mp})
+        pending.append((case, flags, model, err, q))
+    elif gp is not None:
         lean_reqs.append({"m": "scope.deser", "p": gp})
         pending.append((case, flags, model, err, q))
 
@@ -469,9 +491,27 @@ def diff_case(part, out: dict, case, flags, model, err, q) -> None:
     if "err" in out and "ok" not in out:
         part.disagree("driver error: " + str(out["err"])[:200], case, out, None)
         return
+    wf = bool(flags.get("with_functions"))
     if err is not None:
         if sc.error_chain_mentions(err, "Error calling deserialize_function"):
-            part.count("raised_in_function")  # functions are not part of the main-graph model request
+            part.count("raised_in_function")
+            if wf:
+                # functions are part of the request: a KeyError for an unbound function output and a redeclared
+                # node output are the model's error paths; anything else comes from a leaf decoder
+                rc = sc.root_cause(err)
+                if sc.is_redeclared_error(err):
+                    if out.get("ok") or out.get("err", {}).get("kind") != "redeclared":
+                        part.disagree("real code rejects a redeclared output in a function, model does not", case,
+                                      out.get("err"), "redeclared")
+                elif isinstance(rc, KeyError) and sc.innermost_wrapper(err) in ("deserialize_function", ""):
+                    if out.get("ok") or out.get("err", {}).get("kind") != "keyError":
+                        part.disagree("real code raises KeyError for a function output, model does not", case,
+                                      out.get("err"), f"KeyError {rc!s:.60}")
+                else:
+                    part.count(f"raised_in_function_outside_model={type(rc).__name__}@{sc.innermost_wrapper(err)}")
+                    if sc.innermost_wrapper(err) in ("deserialize_function", "_deserialize_node") and out.get("ok"):
+                        part.disagree(f"real code raises {type(rc).__name__} in deserialize_function, model returns an IR",
+                                      case, "ok", f"{type(rc).__name__}: {rc!s:.120}")
         elif sc.is_redeclared_error(err):
             if out.get("ok") or out.get("err", {}).get("kind") != "redeclared":
                 part.disagree("real code rejects a redeclared output, model does not", case, out.get("err"), "redeclared")
@@ -490,7 +530,7 @@ def diff_case(part, out: dict, case, flags, model, err, q) -> None:
         part.disagree("model raises, real code returns an IR", case, out.get("err"), "ok")
         return
     try:
-        real = sc.canon_world(sc.ir_graph_to_world(model.graph))
+        real = sc.canon_world(sc.ir_model_to_world(model) if wf else sc.ir_graph_to_world(model.graph))
     except sc.OutsideModel as e:
         part.count(f"ir_outside_model={e.args[0][:30]}")
         return
@@ -503,8 +543,8 @@ def diff_case(part, out: dict, case, flags, model, err, q) -> None:
                 c["info"] = [c["info"][0], c["info"][1], None]
     if real != mod:
         what = "deserialized IR differs"
-        for k in ("root", "tens"):
-            if real[k] != mod[k]:
+        for k in ("root", "tens", "funcs"):
+            if real.get(k) != mod.get(k):
                 what += f" ({k})"
         if real["vals"] != mod["vals"] and len(real["vals"]) == len(mod["vals"]):
             for i, (a, b) in enumerate(zip(real["vals"], mod["vals"])):
@@ -528,7 +568,24 @@ def diff_case(part, out: dict, case, flags, model, err, q) -> None:
     if not out.get("ser_ok"):
         part.disagree("model serialization raises, to_proto returns", case, out.get("ser_ok"), True)
         return
-    if not lenient and not (len(q.functions) and q.ir_version < 10):
+    if not lenient and wf:
+        try:
+            rq = sc.model_proto_to_model(q)
+        except sc.OutsideModel:
+            return
+        if rq != out.get("q"):
+            what = "re-serialized model proto differs"
+            if rq["p"] != out["q"]["p"]:
+                what += " (main graph)"
+            else:
+                for i, (a, b) in enumerate(zip(rq["funcs"], out["q"]["funcs"])):
+                    if a != b:
+                        what += f" (function {i}: {[k for k in a if a[k] != b.get(k)]})"
+                        break
+                else:
+                    what += " (number of functions)"
+            part.disagree(what, case, out.get("q"), rq)
+    elif not lenient and not (len(q.functions) and q.ir_version < 10):
         try:
             rq = sc.graph_proto_to_model(q.graph)
         except sc.OutsideModel:
@@ -552,6 +609,39 @@ def _quiet() -> None:
     warnings.simplefilter("ignore")  # showing a warning reads source files (linecache): not the library
 
 
+def add_functions(rng, pg, m: onnx.ModelProto, hist: dict) -> None:
+    """functions with generated bodies: the body of a generated graph becomes the function body (its
+    initializer names become dangling references), inputs / outputs by name, value_info for node outputs
+    and for some inputs; outputs may name inputs or nothing at all"""
+    for k in range(rng.choice([1, 1, 2])):
+        tmp = onnx.GraphProto()
+        pg.graph(tmp, [], 1)
+        f = m.functions.add()
+        f.name = rng.choice(["fn", "fn", f"fn{k}"])
+        f.domain = rng.choice(["custom", "custom", "f.dom"])
+        if m.ir_version >= 10 and rng.random() < 0.2:
+            f.overload = "ov"
+        o = f.opset_import.add()
+        o.domain, o.version = "", 18
+        f.input.extend(i.name for i in tmp.input)
+        f.node.extend(tmp.node)
+        outs = [o.name for o in tmp.output]
+        if f.input and rng.random() < 0.2:
+            outs.append(rng.choice(list(f.input)))
+        if rng.random() < pg.p_bad:
+            outs.append("nowhere")
+            hist["function_output_unbound"] = hist.get("function_output_unbound", 0) + 1
+        f.output.extend(outs)
+        f.value_info.extend(tmp.value_info)
+        for i in tmp.input:
+            if rng.random() < 0.5:
+                f.value_info.add().CopyFrom(i)
+        for o_ in tmp.output:
+            if rng.random() < 0.3:
+                f.value_info.add().CopyFrom(o_)
+        hist["generated_function"] = hist.get("generated_function", 0) + 1
+
+
 def _worker(args) -> Part:
     seed, n_field, n_bytes = args
     _quiet()
@@ -564,6 +654,8 @@ def _worker(args) -> Part:
     for _ in range(n_field):
         pg = sc.ProtoGen(rng, p_bad=rng.choice([0.0, 0.05, 0.15, 0.3]), max_depth=rng.choice([1, 2, 2, 3]))
         m = pg.model()
+        if rng.random() < 0.25:
+            add_functions(rng, pg, m, hist)
         for k, v in pg.hist.items():
             hist[k] = hist.get(k, 0) + v
         if rng.random() < 0.35:
